@@ -165,12 +165,16 @@ def wrap_hier(spec, mode):
     """turn a flat 2-node spec into a hierarchical one.
     mode 'split': node a in circuit c1, node b in c2, all edges at the top level (cross-level paths)
     mode 'dup'  : the flat circuit becomes sub-circuit c1 and c2 = the same object; edges stay inside
-    mode 'deep' : 'split' wrapped once more (depth 2)"""
+    mode 'deep' : 'split' wrapped once more (depth 2)
+    mode 'deepdup': 'dup' wrapped once more (edges two levels below the top)"""
     c = spec['circuit']
     s2 = dict(spec)
     labels = list(c['nodes'])
-    if mode == 'dup':
+    if mode in ('dup', 'deepdup'):
         s2['circuit'] = {'name': 'top', 'circuits': {'c1': dict(c, name='sub'), 'c2': {'same_as': 'c1'}}, 'edges': []}
+        if mode == 'deepdup':
+            # the edges now live two levels below the top
+            s2['circuit'] = {'name': 'top2', 'circuits': {'d1': s2['circuit']}, 'edges': []}
         return s2
     where = {l: ('c1' if i == 0 else 'c2') for i, l in enumerate(labels)}
     subs = {'c1': {'name': 'sub1', 'nodes': {}, 'edges': []}, 'c2': {'name': 'sub2', 'nodes': {}, 'edges': []}}
